@@ -173,3 +173,68 @@ func siblingName(t *rapid.T, of string) string {
 	rs[i] = r
 	return string(rs)
 }
+
+// JSONLarge draws an object or array that is large in exactly one respect (drawn): many members (up to 64, names
+// sharing long common prefixes so that ordering is decided late), a long array (up to 200 elements), long strings
+// (up to 600 code points, as name and as value) or deep nesting (up to 40 levels); the rest stays small.
+func JSONLarge(t *rapid.T) (*refjcs.Value, string) {
+	num := func(i int) *refjcs.Value { return &refjcs.Value{Kind: refjcs.Number, Num: float64(i)} }
+	switch shape := rapid.SampledFrom([]string{"many-members", "long-array", "long-strings", "deep"}).Draw(t, "largeShape"); shape {
+	case "many-members":
+		n := rapid.IntRange(9, 64).Draw(t, "members")
+		prefix := rapid.SampledFrom([]string{"", "k", "key-with-a-long-common-prefix-", "\u00e9\U0001f600"}).Draw(t, "namePrefix")
+		v := &refjcs.Value{Kind: refjcs.Object, Obj: []refjcs.Member{}}
+		seen := map[string]bool{}
+		for i := 0; i < n; i++ {
+			name := prefix + JSONString(t)
+			if rapid.Bool().Draw(t, "numericName") {
+				name = prefix + rapid.StringMatching(`[0-9]{1,3}`).Draw(t, "digits")
+			}
+			if seen[name] {
+				continue
+			}
+			seen[name] = true
+			v.Obj = append(v.Obj, refjcs.Member{Name: name, Val: num(i)})
+		}
+		return v, shape
+	case "long-array":
+		n := rapid.IntRange(17, 200).Draw(t, "elements")
+		v := &refjcs.Value{Kind: refjcs.Array, Arr: []*refjcs.Value{}}
+		for i := 0; i < n; i++ {
+			if i%7 == 0 {
+				v.Arr = append(v.Arr, JSONValue(t, 1))
+			} else {
+				v.Arr = append(v.Arr, num(i))
+			}
+		}
+		return v, shape
+	case "long-strings":
+		long := func() string {
+			n := rapid.IntRange(60, 600).Draw(t, "codePoints")
+			unit := rapid.SampledFrom([]string{"a", "\u00e9", "\u20ac", "\U0001f600", "\"", "\\", "\n", "\u0001", "ab\u2028"}).Draw(t, "unit")
+			s := ""
+			for len([]rune(s)) < n {
+				s += unit
+				if rapid.IntRange(0, 9).Draw(t, "mix") == 0 {
+					s += JSONString(t)
+				}
+			}
+			return s
+		}
+		return &refjcs.Value{Kind: refjcs.Object, Obj: []refjcs.Member{{Name: long(), Val: &refjcs.Value{Kind: refjcs.String, Str: long()}}, {Name: "z", Val: num(1)}}}, shape
+	default:
+		depth := rapid.IntRange(8, 40).Draw(t, "levels")
+		var v *refjcs.Value = JSONValue(t, 1)
+		for i := 0; i < depth; i++ {
+			if rapid.Bool().Draw(t, "wrapInArray") {
+				v = &refjcs.Value{Kind: refjcs.Array, Arr: []*refjcs.Value{num(i), v}}
+			} else {
+				v = &refjcs.Value{Kind: refjcs.Object, Obj: []refjcs.Member{{Name: "b", Val: num(i)}, {Name: "a", Val: v}}}
+			}
+		}
+		if v.Kind != refjcs.Array && v.Kind != refjcs.Object {
+			v = &refjcs.Value{Kind: refjcs.Array, Arr: []*refjcs.Value{v}}
+		}
+		return v, shape
+	}
+}
